@@ -82,7 +82,13 @@ def show(b):
     for l in b["locals"]:
         if "name" in l or l["id"] <= b["arg_count"]:
             print("   let _%d: %s  // %s" % (l["id"], l["ty"], l.get("name", "")))
+    import sys as _s
+    _s.path.insert(0, __import__("os").path.dirname(__import__("os").path.abspath(__file__)))
+    from engine import Body
+    live = Body(b, None).live_blocks()
     for blk in b["blocks"]:
+        if blk["id"] not in live and "--all" not in _s.argv:
+            continue
         print(" bb%d%s:" % (blk["id"], " (cleanup)" if blk["cleanup"] else ""))
         for s in blk["stmts"]:
             if s["k"] == "assign":
@@ -112,5 +118,5 @@ def show(b):
 if __name__ == "__main__":
     f = json.load(open(sys.argv[1]))
     for b in f["bodies"]:
-        if any(pat in b["path"] for pat in sys.argv[2:]):
+        if any(pat in b["path"] for pat in sys.argv[2:] if pat != "--all"):
             show(b)
